@@ -194,6 +194,19 @@ def run(ctx):
                   {"identity": identity, "seedtag": seedtag, "j": j, "mstrat": ms, "payload": enc.payload.hex()})
             if j % 10 == 0 and len(enc.payload) > 4:
                 broken_case(ctx, identity, enc.payload[: r2.randint(3, len(enc.payload) - 1)])
+    from vf import common
+
+    for k_, (name_, fr_) in enumerate(common.recorded_frames()):
+        if not ctx.mine(k_):
+            continue
+        pl_ = fr_[3:-3]
+        ident_ = common.expected_identity(pl_)
+        try:
+            meta_ = refmodel.decode(ident_, pl_).meta
+        except Exception:
+            continue
+        check(ctx, ident_, pl_, meta_, {"identity": ident_, "payload": pl_.hex(), "recorded": name_})
+        ctx.hit("recorded_frames_checked")
     ctx.sample({"options": [0, 1, 2, True], "label_pairs_seen": len(ctx.labelmap),
                 "example": [[list(map(str, k)), v] for k, v in list(ctx.labelmap.items())[:6]]})
 
